@@ -307,6 +307,22 @@ impl<'a> InertElementBuilder<'a> {
         }
     }
 
+    /// The scope class of `view! { class = ..., ... }` for an element that has no `class`
+    /// attribute of its own (the builder path adds it to every element).
+    fn push_global_class(&mut self) {
+        if let InertElementBuilder::GlobalClass {
+            global_class,
+            strs,
+            buffer,
+        } = self
+        {
+            buffer.push_str(" class=\"");
+            strs.push(GlobalClassItem::String(std::mem::take(buffer)));
+            strs.push(GlobalClassItem::Global(global_class));
+            buffer.push('"');
+        }
+    }
+
     fn finish(&mut self) {
         match self {
             InertElementBuilder::GlobalClass { strs, buffer, .. } => {
@@ -362,6 +378,7 @@ fn inert_element_to_tokens(
                         html.push('<');
                         html.push_str(&el_name);
 
+                        let mut has_class = false;
                         for attr in node.attributes() {
                             if let NodeAttribute::Attribute(attr) = attr {
                                 let attr_name = attr.key.to_string();
@@ -385,6 +402,7 @@ fn inert_element_to_tokens(
                                             let value = html_escape::encode_double_quoted_attribute(&value);
                                             if attr_name == "class" {
                                                 html.push_class(&value);
+                                                has_class = true;
                                             } else {
                                                 html.push_str("=\"");
                                                 html.push_str(&value);
@@ -394,6 +412,9 @@ fn inert_element_to_tokens(
                                     }
                                 };
                             }
+                        }
+                        if !has_class {
+                            html.push_global_class();
                         }
 
                         html.push('>');
